@@ -234,7 +234,7 @@ class Runtime:
         self.depth += 1
         if self.depth > 60:
             self.depth -= 1
-            raise Unsupported(f"evaluation depth exceeded at {func.qualname}")
+            raise LoopBound(f"evaluation depth exceeded at {func.qualname} (unbounded recursion)")
         try:
             ev = self.evaluator(func.module)
             if parent is not None:
